@@ -733,6 +733,8 @@ def fv(value, spec="", conv=""):
     # a plain {} / %s of a string term is the term itself
     if sp in ("", "s") and conv in ("", "s") and _stringy(value):
         return value
+    if sp in ("", "s") and conv == "s":
+        sp, conv = "", ""           # str(x) and format(x, '') agree for the built-in types rendered here
     return Op("fv", value, Const(sp), Const(conv))
 
 
@@ -755,8 +757,15 @@ def pct_format(f, args):
         if t == "%":
             parts.append(Const("%"))
             continue
-        if m.group("key") is not None or m.group("width") == "*" or m.group("prec") == "*":
+        if m.group("key") is not None or m.group("prec") == "*":
             return Op("pct", f, args)
+        star = None
+        if m.group("width") == "*":
+            # '%0*X' % (width, value): the width is the preceding argument
+            if i >= len(argl) or t in "sra":
+                return Op("pct", f, args)
+            star = argl[i]
+            i += 1
         if i >= len(argl):
             return Op("pct", f, args)
         a = argl[i]
@@ -773,7 +782,10 @@ def pct_format(f, args):
             spec += "#"
         if "0" in flags and "-" not in flags:
             spec += "0"
-        spec += (m.group("width") or "")
+        pre_star = spec
+        spec += (m.group("width") or "") if star is None else ""
+        if star is not None:
+            spec = ""
         if m.group("prec"):
             spec += "." + m.group("prec")
         if t in "di" or t == "u":
@@ -784,6 +796,9 @@ def pct_format(f, args):
             continue
         else:
             spec += t
+        if star is not None:
+            parts.append(fv(a, fmt([Const(pre_star), fv(star, "", ""), Const(spec)])))
+            continue
         parts.append(fv(a, spec))
     parts.append(Const(s[pos:]))
     if i != len(argl):
